@@ -44,7 +44,7 @@ def cases(draw, maxfr=16, maxdim=20):
     om0 = draw(st.integers(-3200, 3200)) / 16.0
     step = draw(st.sampled_from([1, 4, 16, -4, 3])) / 16.0
     empty = draw(st.booleans())
-    imtype = draw(st.sampled_from(["f32", "f32", "u16", "i32", "f64", "fortran", "strided", "small", "small", "tiny"]))
+    imtype = draw(st.sampled_from(["f32", "f32", "u16", "i32", "f64", "fortran", "strided", "small", "small", "tiny", "f32frac", "f32frac"]))
     return dict(kind=kind, nfr=nfr, ns=ns, nf=nf, fill=fill, seed=seed, thpos=thpos, om0=om0, step=step, empty=empty,
                 imtype=imtype)
 
@@ -125,6 +125,10 @@ def build(case):
     vals = rng.randint(1, 50, (nfr, ns, nf))
     vol = np.where(occ, vals, 0).astype(np.float32)
     th = {"low": 0.5, "mid": 10.5, "at": 10.0}[case["thpos"]]
+    if case.get("imtype") == "f32frac":
+        # corrected data (dark / flat field): values between the whole numbers, some of them between a threshold and
+        # the whole number below it (quarters: every sum stays exact)
+        vol = vol + np.where(occ & (rng.random_sample(vol.shape) < 0.5), np.float32(0.25), np.float32(0.0))
     if case.get("imtype") in SCALES:
         # normalised data (divided by a monitor / flat field): the same pattern 1024 times weaker, whole peaks sum
         # to less than 0.1; the scale is a power of two, so nothing is rounded
@@ -304,7 +308,8 @@ def check(case, rec=None):
     # files: EDF frames on disk, rotation angle in the header ("Omega", or another motor named with --omega_motor)
     # or given by -T start -S step with --OmegaOverRide; reader thread or --singleThread; several -t at once
     scr = "none"
-    if case.get("imtype", "f32") in ("f32", "u16", "i32", "f64") and _h(case) % 6 == 0:
+    if case.get("imtype", "f32") in ("f32", "u16", "i32", "f64", "f32frac") and \
+            _h(case) % (3 if case.get("imtype") == "f32frac" else 6) == 0:
         import os, shutil, argparse, contextlib, fabio
         mode = ["Omega", "motor", "override"][(_h(case) // 6) % 3]
         one = bool((_h(case) // 18) % 2)
